@@ -120,6 +120,14 @@ CHECKS = {
         note=PROOF_NOTE + "Modelled, not verified: unitarity of the normalised FFT pair (adjointness hypothesis), adjointness of expand/reduce (C02), linearity of torch operations; CG convergence to solver tolerance and 'never worse than the start' are validated numerically only.",
         technique="Coq proof (ring identities in abstract inner-product spaces over regenerated operator terms; induction over CG iterations) + exact one-pixel correspondence + numeric validation",
         design="§6 C19"),
+    "C20": dict(
+        text="Finite statement, decided by computation in Coq over data regenerated on every run: the registry of names defined or imported per module (AST scan of direct/), the fields and default kinds of every dataclass of the typed schema, every projects/**/*.yaml (87 at this tree), and the parameters of build_mri_transforms. "
+             "Theorems (vm_compute lifted with forallb_forall): for every shipped configuration the model, model-config, engine, additional models, dataset configs, dataset classes, masking functions and operators resolve under the string rules of direct.environment (modelled in Coq and structurally checked against the source) and the keys of its model sections are fields of the config classes; "
+             "no schema field defaults to a dataclass instance; every leaf key of the transform schema is a builder parameter. "
+             "Tied by verdict correspondence with the real loader (OmegaConf merge, str_to_class) on all shipped files plus mutated copies; parsing, typed merge, masking/transform construction for all files and model+engine instantiation (time-boxed sample in quick, all in thorough) are oracles.",
+        note=PROOF_NOTE + "Modelled, not verified: importlib/getattr resolution as registry lookup, OmegaConf (only unknown model keys are modelled; types, enums, missing values are judged by the real loader), instantiation on CPU with synthetic Calgary-Campinas mask files; only the installed Python 3.12 / torch 2.14.",
+        technique="Coq proof by computation over a regenerated finite model (registry, schema, YAML trees) + verdict correspondence with the real loader on shipped and mutated configurations",
+        design="§6 C20"),
     "C14": dict(
         text="Theorem over the reconstruct_volumes state machine (last_filename / curr_volume / slice_counter / volume_size) for every sequence of volumes delivered as non-empty batches of consecutive slices, any names, items and per-slice function: "
              "exactly one output per volume, in order, k-th slice = processed output of the k-th slice; composed with the chunking of the volume batch sampler the result is independent of the batch size. "
